@@ -3,7 +3,7 @@
    The Gaussian facts are hypotheses (tail_ok: Chernoff bound; mills_ok: Mills ratio; chi2_ok: union
    over coordinates) — no probability library is installed.  T x = P(|Z| > x), C2 m y = P(chi2_m > y). *)
 From Coq Require Import Reals.
-From VOPy Require Import SchedBase SchedulesA SchedulesB.
+From VOPy Require Import SchedBase SchedulesA SchedulesB SchedulesC.
 From VOPy Require Spec.
 From VOPyGen Require Import Gen_formulas.
 From VOPyGen Require Gen_algos.
@@ -33,6 +33,15 @@ Theorem C04_paveba : forall T C2 K m delta sigma2 N, tail_ok T -> chi2_ok T C2 -
   <= delta.
 Proof. exact paveba_union_bound. Qed.
 Print Assumptions C04_paveba.
+
+(* PaVeBa for the whole range of objective counts the property quantifies over (m <= 6), under the Laurent–Massart
+   chi-square tail bound P(chi2_m >= m + 2 sqrt(m x) + 2 x) <= exp(-x) (hypothesis chi2_lm_ok, with antitonicity) *)
+Theorem C04_paveba_up_to_six_objectives : forall C2 K m delta sigma2 N, chi2_lm_ok C2 ->
+  (1 <= K)%nat -> (1 <= m <= 6)%nat -> 0 < delta < 1 -> 0 < sigma2 ->
+  sumR (fun t => INR K * C2 m (INR t * (paveba_radius sigma2 delta (INR K) (INR m) (INR t) 1 * paveba_radius sigma2 delta (INR K) (INR m) (INR t) 1) / sigma2)) N
+  <= delta.
+Proof. exact paveba_union_bound_lm. Qed.
+Print Assumptions C04_paveba_up_to_six_objectives.
 
 Theorem C04_paveba_gp_rectangles : forall T K m delta nv N, tail_ok T ->
   (1 <= K)%nat -> (1 <= m)%nat -> 0 < delta < 1 ->
